@@ -92,9 +92,10 @@ def unit_formula(h):
     if len(zs) != 1:
         return
     z = z3.Real(zs[0])
-    sq = [d for s in h.ctx.pc for d in _consts(s) if str(d).startswith("sqrt")]
-    sroot = z3.Real(str(sq[0])) if sq else None
-    h.ensures("scale_inflation_is_sqrt_of_var_inflate_plus_one", sroot is not None)
+    from pyvc.theory_np import SQRT
+
+    sroot = SQRT(kap + 1)
+    h.ensures("scale_inflation_is_sqrt_of_var_inflate_plus_one", any("pyvc_sqrt" in str(s) for s in h.ctx.pc))
     lc = mu_lo + (sroot * s_lo) * z
     uc = mu_hi + (sroot * s_hi) * z
     want_l = z3.If((lraw.t - lc) * t.last + t.last >= t.res, (lraw.t - lc) * t.last + t.last, t.res)
@@ -289,3 +290,288 @@ def _fit_stats(aggname, keys):
 
 for _n, _k in list(AGGS.items()) + [("all", [])]:
     _fit_stats(_n, _k)
+
+
+# ---- the postcondition of the WHOLE recursion of GaussianModel.fit as a multi-level table ------------------------
+from pyvc import levels  # noqa: E402
+from pyvc.values import fresh_name  # noqa: E402
+
+STAT_COLS = ["var_inflate", "mu_lower_bound", "mu_upper_bound", "sigma_lower_bound", "sigma_upper_bound"]
+
+
+def exists_row(ctx, root, body_u, name):
+    """b <=> some row of the universe satisfies body: Skolem witness + ghost instantiation (no quantifier)"""
+    b = z3.Bool(fresh_name(name))
+    w = z3.Int(fresh_name("w_" + name))
+    at = lambda i: z3.And(i >= 0, i < root.n, z3.substitute(body_u, (root.u, i)))  # noqa: E731
+    ctx.assume(z3.Implies(b, at(w)))
+
+    def inst(i):
+        ctx.assume(z3.Implies(at(i), b))
+
+    inst(root.u)
+    inst(root.u2)
+    return b, w, inst
+
+
+class FitSpec:
+    """statement-side description of the table GaussianModel.fit(cal, rep, nonrep, estimand, aggregate=keys, alpha) returns:
+    level j (keys[:j]) holds one row per group g with  #cal(g) >= T = min(10, #cal)  PROVIDED every finer level j' > j
+    has some group (with calibration or outstanding units) below T  [otherwise the finer level's per-group fit served
+    everybody and no coarser model was built]; the row carries the statistics of g's own calibration rows."""
+
+    def __init__(self, h, t, calD, nonD, keys, alpha, settings=SETTINGS):
+        from pyvc import sums
+
+        self.h, self.t, self.keys = h, t, list(keys)
+        ctx = h.ctx
+        root = t.root
+        L = len(keys)
+        self.ncal = frames.count_of(root, calD)
+        self.T = z3.If(self.ncal < 10, self.ncal, z3.IntVal(10))
+        self.n, self.dn, self.gs, self.own, self.dom = {}, {}, {}, {}, {}
+        for j in range(L + 1):
+            kj = list(keys[:j])
+            gs = frames.keyspace(kj, {k: z3.StringSort() for k in kj})
+            self.gs[j] = gs
+            self.dom[j] = z3.And(calD, *[t.keys[k] == gs.keyvars[k] for k in kj])
+            if j == 0:
+                self.n[j] = self.ncal
+            else:
+                self.n[j], self.dn[j] = sums.formal_sum_dom(ctx, root, self.dom[j], z3.IntVal(1))
+            self.own[j] = [(gs.keyvars[k], t.keys[k]) for k in kj]
+        self.F, self.Fw, self.Finst = {}, {}, {}
+        for j in range(1, L + 1):
+            body = z3.And(z3.Or(calD, nonD), z3.substitute(self.n[j], *self.own[j]) < self.T)
+            self.F[j], self.Fw[j], self.Finst[j] = exists_row(ctx, root, body, f"fallback_level{j}")
+        self.D, self.stats = {}, {}
+        lo, up = h.syms["lower_bounds"](root.u), h.syms["upper_bounds"](root.u)
+        conf = (3 + (alpha.t if isinstance(alpha, V) else z3.RealVal(alpha))) / 4
+        extra = [conf, z3.BoolVal(settings["winsorize"]), z3.IntVal(settings["seed"]), z3.IntVal(10000)]
+        w = z3.ToReal(t.last)
+        for j in range(L + 1):
+            self.D[j] = z3.And(self.ncal >= 1, self.n[j] >= self.T, *[self.F[k] for k in range(j + 1, L + 1)])
+            d = self.dom[j]
+            W, dW = sums.formal_sum_dom(ctx, root, d, t.last)
+            W2, _ = sums.formal_sum_dom(ctx, root, d, t.last * t.last)
+            self.stats[j] = {
+                "var_inflate": z3.ToReal(W2) / (z3.ToReal(W) * z3.ToReal(W)),
+                "mu_lower_bound": sums.formal_stat(ctx, "wmedian", root, d, [lo, w / z3.ToReal(W)])[0],
+                "mu_upper_bound": sums.formal_stat(ctx, "wmedian", root, d, [up, w / z3.ToReal(W)])[0],
+                "sigma_lower_bound": settings["beta"] * sums.formal_stat(ctx, "bootsigma", root, d, [lo], extra)[0],
+                "sigma_upper_bound": settings["beta"] * sums.formal_stat(ctx, "bootsigma", root, d, [up], extra)[0],
+                "_W": (W, dW),
+            }
+            # a level-j group with calibration rows has positive weight sums (previous results + 1 >= 1): lemma instances
+            r = frames.count_witness(ctx, root, calD) if j == 0 else sums.sum_nonzero_witness(ctx, self.dn[j])
+            dW2 = sums.formal_sum_dom(ctx, root, d, t.last * t.last)[1]
+            sums.lemma_sum_ge_member(ctx, dW, r, name=f"lemma.level{j}.weight_sum_positive")
+            sums.lemma_sum_ge_member(ctx, dW2, r, name=f"lemma.level{j}.squared_weight_sum_positive")
+
+    def table(self):
+        parts = []
+        for j in sorted(self.D):
+            gs = self.gs[j]
+            ax = frames.RowAxis(gs, [self.D[j]], ("sorted", tuple(self.keys[:j])))
+            f = frames.Frame(ax, {}, ("range", ax.name), None)
+            for k in self.keys[:j]:
+                f.cols[k] = V(gs.keyvars[k], (ax,), f.index)
+            for c in STAT_COLS:
+                f.cols[c] = V(self.stats[j][c], (ax,), f.index)
+            parts.append(f)
+        return levels.PartsFrame(parts)
+
+
+class GMTableContract:
+    """GaussianModel(model_settings) whose .fit(...) returns the multi-level table of FitSpec (proved for the real
+    recursion by the units fit_cascade_step.*, group_statistics.* and fit_result.*)"""
+
+    def __init__(self, h, t):
+        self.h, self.t = h, t
+        self.calls = []
+
+    def pyvc_getattr(self, interp, name):
+        if name != "fit":
+            raise Exception(name)
+
+        def fit(conformalization_data, reporting_units, nonreporting_units, estimand, aggregate=None, alpha=None, reweight=False, top_level=True):
+            spec = FitSpec(self.h, self.t, conformalization_data.axis.doms[0], nonreporting_units.axis.doms[0], list(aggregate), alpha)
+            self.calls.append(dict(spec=spec, conf=conformalization_data, rep=reporting_units, non=nonreporting_units, aggregate=list(aggregate), alpha=alpha, top_level=top_level, reweight=reweight))
+            # ghost: the definitions of "some group is below the threshold" at the rows that witness the generic group
+            L = len(aggregate)
+            wits = frames.presence_instances(interp.ctx, self.t.root, {k: spec.gs[L].keyvars[k] for k in aggregate})
+            for j in spec.Finst:
+                for r in wits:
+                    spec.Finst[j](r)
+            return spec.table()
+
+        return fit
+
+
+def _agg_intervals(aggname, keys):
+    @unit("C15", f"aggregate_intervals.{aggname}", fns=[f"{GA}.get_aggregate_prediction_intervals"])
+    def agg(h):
+        """the gaussian aggregate interval of every group with outstanding units: exactly one model row (own group if
+        large enough, else its state, else everything), bounds = summed unadjusted unit bounds shifted by the normal
+        quantile of (W mu, sigma sqrt(W2 + kappa W^2)), floored at the votes already counted"""
+        from pyvc import sums
+
+        from pyvc import theory_np
+
+        theory_np.OPAQUE_ROUND[0] = True  # rounding by congruence + its interval / whole-number consequences
+        t = Three(h, "turnout", extra=("lower_bounds", "upper_bounds", "nr_lower", "nr_upper"))
+        f = z3.Function("inCal", z3.IntSort(), z3.BoolSort())
+        h.syms["inCal"] = f
+        inCal = f(t.root.u)
+        h.forall_rows(t.root, z3.Implies(inCal, t.R))
+        cal = frames.base_frame(t.root, inCal, {k: c.t for k, c in t.rep.cols.items()}, "geographic_unit_fips")
+        alpha = h.real("alpha")
+        h.requires("alpha_open", 0 < alpha, alpha < 1)
+        # C14.gaussian.split (proved there): above the reporting-unit gate the split leaves >= 1 calibration row
+        h.requires("some_calibration_row", cal.axis.n >= 1)
+        frames.count_witness(h.ctx, t.root, inCal)
+        gmc = GMTableContract(h, t)
+        h.contracts[GM] = lambda interp, ms: gmc
+        self = C03.model(h, GA)
+        nr_lo = V(h.syms["nr_lower"](t.root.u), (t.nonrep.axis,), t.nonrep.index)
+        nr_up = V(h.syms["nr_upper"](t.root.u), (t.nonrep.axis,), t.nonrep.index)
+        from pyvc.interp import SymKey
+
+        self.attrs["alpha_to_nonreporting_lower_bounds"] = {SymKey(alpha): nr_lo}
+        self.attrs["alpha_to_nonreporting_upper_bounds"] = {SymKey(alpha): nr_up}
+        upi = NamedTuple("PredictionIntervals", ["lower", "upper", "conformalization"], [None, None, cal])
+        h.default_replay = lambda ev: {"target": "verif_replays:gaussian_aggregate_replay", "args": [list(keys)], "check": "result['exc'] is None and result['ok']"}
+        kind, res = h.call_method(self, "get_aggregate_prediction_intervals", t.rep, t.nonrep, t.third, list(keys), alpha, upi, "turnout")
+        if kind == "raise":
+            return h.fail("no_raise", f"raised {res}", replay=lambda ev: {"target": "verif_replays:gaussian_aggregate_replay", "args": [list(keys)], "check": "result['exc'] is None and result['ok']"})
+        L = len(keys)
+        rp = lambda ev: {"target": "verif_replays:gaussian_aggregate_replay", "args": [list(keys)], "check": "result['exc'] is None and result['ok']"}  # noqa: E731
+        spec = gmc.calls[0]["spec"]
+        h.ensures("one_fit_on_the_calibration_rows_at_this_aggregate", len(gmc.calls) == 1 and gmc.calls[0]["conf"] is cal and gmc.calls[0]["non"] is t.nonrep and gmc.calls[0]["aggregate"] == list(keys) and gmc.calls[0]["alpha"] is alpha)
+        gs = spec.gs[L]
+        facts = z3.And(*t.root.facts())
+        pN = t.member("N", keys)  # the generic unit is an outstanding unit of the generic group
+        # which level serves the generic group: its own if large enough, else the next coarser one that is, else everything
+        def pick(c):
+            v = spec.stats[0][c]
+            for j in range(1, L + 1):
+                v = z3.If(spec.n[j] >= spec.T, spec.stats[j][c], v)
+            return v
+
+        mb = self.attrs["modeled_bounds_agg"]
+        if mb is None:
+            # early return: no outstanding unit at all -> both bounds are the counted votes
+            sR, dR = t.gsum("R", keys, t.res)
+            sT, dT = t.gsum("T", keys, t.res)
+            counted = sR if "county_classification" in keys else sR + sT
+            lo0, up0 = res  # (the consumer reads positions 0 and 1)
+            rows = z3.And(*lo0.axes[0].facts())
+            h.ensures("no_outstanding_units.bounds_are_the_counted_votes", z3.Implies(rows, z3.And(real(lo0.t) == z3.ToReal(counted), real(up0.t) == z3.ToReal(counted))))
+            h.ensures("no_outstanding_units.only_then", t.nonrep.axis.n == 0)
+            return
+        h.ensures("model_table_is_over_the_groups", isinstance(mb, frames.Frame) and mb.axis.root is gs)
+        mult = mb.axis.multiplicity()
+        h.ensures("exactly_one_model_row_per_group_with_outstanding_units", z3.Implies(z3.And(facts, pN), mult == 1), replay=rp)
+        wN = frames.presence_instances(h.ctx, t.root, {k: gs.keyvars[k] for k in keys})
+        some_N = z3.Or(*[z3.And(r >= 0, r < t.root.n, z3.substitute(pN, (t.root.u, r))) for r in wN])
+        h.ensures("no_model_row_for_other_groups", z3.Implies(mult >= 1, some_N))
+        for i, d in enumerate(mb.axis.doms):
+            for c in STAT_COLS:
+                col = mb.col(c)
+                h.ensures(f"segment{i}.{c}.comes_from_the_right_level", z3.Implies(d, z3.And(real(mb.axis.seg_term(col.t, i)) == pick(c), z3.Not(mb.axis.seg_term(col.nan, i)) if col.nan is not None else z3.BoolVal(True))), replay=rp)
+        # the interval
+        from pyvc.theory_np import SQRT
+
+        nrl, nru = h.syms["nr_lower"](t.root.u), h.syms["nr_upper"](t.root.u)
+        Wn, dWn = t.gsum("N", keys, t.last)
+        W2n, dW2n = t.gsum("N", keys, t.last * t.last)
+        LB, _ = t.gsum("N", keys, z3.ToReal(t.last) * nrl)
+        UB, _ = t.gsum("N", keys, z3.ToReal(t.last) * nru)
+        resN, dresN = t.gsum("N", keys, t.res)
+        sR, dR = t.gsum("R", keys, t.res)
+        sT, dT = t.gsum("T", keys, t.res)
+        counted = sR if "county_classification" in keys else sR + sT
+        zs = sorted({str(d) for s_ in h.ctx.pc for d in _consts(s_) if str(d).startswith("z_q")})
+        h.ensures("single_quantile_symbol", len(zs) == 1, why=str(zs))
+        if len(zs) != 1:
+            return
+        z = z3.Real(zs[0])
+        zq = [s_ for s_ in h.ctx.pc if zs[0] in str(s_)]
+        h.ensures("quantile_level_is_three_plus_alpha_over_four", any("(3 + alpha)/4" in str(s_).replace("ToReal(3)", "3").replace("ToReal(4)", "4") for s_ in zq), why=str(zq)[:300])
+        # the argument of the square root is never negative (sums of squares; kappa is a ratio of positive sums)
+        sums.lemma_sum_nonneg(h.ctx, dW2n, name="lemma.squared_outstanding_weights_nonneg")
+        for j in range(L + 1):
+            arg_j = z3.ToReal(W2n) + spec.stats[j]["var_inflate"] * (z3.ToReal(Wn) * z3.ToReal(Wn))
+            h.ensures(f"sqrt_argument_nonnegative.level{j}", z3.Implies(spec.D[j], arg_j >= 0))
+            h.ctx.assume(z3.Implies(spec.D[j], arg_j >= 0))  # (just proved)
+        kap = pick("var_inflate")
+        root_term = SQRT(z3.ToReal(W2n) + kap * (z3.ToReal(Wn) * z3.ToReal(Wn)))
+        lb = LB - (z3.ToReal(Wn) * pick("mu_lower_bound") + (pick("sigma_lower_bound") * root_term) * z)
+        ub = UB + (z3.ToReal(Wn) * pick("mu_upper_bound") + (pick("sigma_upper_bound") * root_term) * z)
+        pl = z3.If(z3.ToReal(Wn) + lb >= z3.ToReal(resN), z3.ToReal(Wn) + lb, z3.ToReal(resN))
+        pu = z3.If(z3.ToReal(Wn) + ub >= z3.ToReal(resN), z3.ToReal(Wn) + ub, z3.ToReal(resN))
+        lower, upper = res.lower, res.upper
+        ax = lower.axes[0]
+        rows = z3.And(*ax.facts())
+        hasN = mult >= 1
+        want_l = z3.If(hasN, pl, 0) + z3.ToReal(counted)
+        want_u = z3.If(hasN, pu, 0) + z3.ToReal(counted)
+        isrnd = lambda x: z3.is_app(x) and x.decl().name() == "round_to" and z3.is_int_value(x.arg(1)) and x.arg(1).as_long() == 0  # noqa: E731
+        h.ensures("bounds_are_rounded_to_whole_numbers", isrnd(lower.t) and isrnd(upper.t))
+        if not (isrnd(lower.t) and isrnd(upper.t)):
+            return
+        import os as _os
+
+        if _os.environ.get("VERIF_DEBUG"):
+            from pyvc.euf import abstract_nonlinear as _an
+
+            items = {"code": lower.t.arg(0), "want": want_l, "hasN": hasN, "pl": pl, "counted": z3.ToReal(counted), "Wn": Wn, "resN": resN, "LB": LB, "lb": lb, "rows": rows, "pN_present": mb.axis.present()}
+            for i_, d_ in enumerate(mb.axis.doms):
+                items[f"d{i_}"] = d_
+                for c_ in ("mu_lower_bound",):
+                    items[f"seg{i_}.{c_}"] = mb.axis.seg_term(mb.col(c_).t, i_)
+            for j_ in range(L + 1):
+                items[f"n{j_}>=T"] = spec.n[j_] >= spec.T
+                items[f"D{j_}"] = spec.D[j_]
+            for c_ in ("nonreporting_aggregate_lower_bound", "nonreporting_weight_sum", "nonreporting_weight_ssum"):
+                print("COL", c_, mb.axis.seg_term(mb.col(c_).t, 0), "| spec:", LB, Wn, W2n, flush=True)
+            names_ = list(items)
+            fs_ = _an(list(h.ctx.pc) + [items[k] for k in names_])
+            pcs_, its_ = fs_[: len(h.ctx.pc)], dict(zip(names_, fs_[len(h.ctx.pc) :]))
+            sv = z3.Solver()
+            sv.set("timeout", 60000)
+            sv.add(*pcs_)
+            sv.add(its_["rows"], its_["code"] != its_["want"])
+            r_ = sv.check()
+            print("DEBUG check:", r_, flush=True)
+            open("/tmp/dbg_code.txt", "w").write(z3.simplify(its_["code"]).sexpr())
+            open("/tmp/dbg_want.txt", "w").write(z3.simplify(its_["want"]).sexpr())
+            if r_ == z3.sat:
+                m_ = sv.model()
+                for k in names_:
+                    print("  ", k, "=", m_.eval(its_[k], model_completion=True), flush=True)
+        h.ensures_euf("lower_bound_formula", z3.Implies(rows, lower.t.arg(0) == want_l), replay=rp)
+        h.ensures_euf("upper_bound_formula", z3.Implies(rows, upper.t.arg(0) == want_u), replay=rp)
+        for nm, v in (("lower", lower), ("upper", upper)):
+            h.ensures(f"{nm}.finite", z3.Implies(rows, z3.And(z3.Not(v.nan) if v.nan is not None else z3.BoolVal(True), z3.Not(v.inf) if v.inf is not None else z3.BoolVal(True))))
+        for d in (dresN, dR, dT):
+            sums.lemma_sum_int(h.ctx, d, name="lemma.sum_int")
+        h.ctx.assume(z3.Implies(rows, z3.And(lower.t.arg(0) == want_l, upper.t.arg(0) == want_u)))  # (the two formulas just proved)
+        # floors: the un-rounded value is at least the (whole) number of votes already counted, and rounding keeps whole floors
+        kI = counted + z3.If(hasN, resN, z3.IntVal(0))
+        x_, r_, k_ = z3.Real("x!lemma"), z3.Int("r!lemma"), z3.Int("k!lemma")
+        h.lemma("lemma.rounding_keeps_whole_floors", z3.Implies(z3.And(x_ >= z3.ToReal(k_), z3.ToReal(r_) >= x_ - z3.RealVal("1/2")), r_ >= k_))
+        for nm, v in (("lower", lower), ("upper", upper)):
+            inner = v.t.arg(0)
+            h.ensures_euf(f"C03.{nm}_floor.before_rounding", z3.Implies(rows, inner >= z3.ToReal(kI)))
+            h.ctx.assume(z3.Implies(rows, inner >= z3.ToReal(kI)))  # (just proved)
+            ri = theory_np.RNDI(inner)
+            h.ctx.assume(z3.Implies(z3.And(inner >= z3.ToReal(kI), z3.ToReal(ri) >= inner - z3.RealVal("1/2")), ri >= kI))  # (instance of the lemma)
+            h.ensures_euf(f"C03.{nm}_floor", z3.Implies(rows, real(v.t) >= z3.ToReal(kI)))
+        h.ensures("C03.whole_numbers", z3.Implies(rows, z3.And(z3.IsInt(real(lower.t)), z3.IsInt(real(upper.t)))))
+
+    return agg
+
+
+for _n, _k in AGGS.items():
+    _agg_intervals(_n, _k)
